@@ -298,7 +298,7 @@ fn do_call(lvl: &PriceLevel, generator: &UuidGenerator, op: &str) -> String {
         "RH" => format!("num:{}", lvl.hidden_quantity()),
         "RC" => format!("num:{}", lvl.order_count()),
         "LIST" => format!("list:{}", list_str(&lvl.iter_orders(), |o| str_of_order(o))),
-        // a snapshot: three counter loads and an iteration (not a call of Model/Conc.v: only in `nomodel` programs)
+        // a snapshot: three counter loads and an iteration (Model/Conc.v: CSnapshot)
         "SNAP" => {
             let s = lvl.snapshot();
             format!("snap:{}/{}/{}/{}", s.visible_quantity, s.hidden_quantity, s.order_count, list_str(&s.orders, |o| str_of_order(o)))
